@@ -3,53 +3,129 @@
   Model: MvModel/Vec.lean (mirror of VecIndex::search, Memvid::search_vec, uncompressed index codec).
 
   The theorems are order-theoretic: distances are an abstract type `D` compared by `pcmp`
-  (`f32::partial_cmp`), the distance function `dist` is arbitrary (it is `l2_distance`, see C38).
-  Hypothesis `NoNaN pcmp`: the comparator the code builds (`partial_cmp(..).unwrap_or(Equal)`)
-  is a total preorder — true of f32 as long as no distance is NaN.  `C13_nan_breaks_topk` shows
-  the hypothesis is needed: with a NaN distance the same code drops a strictly closer frame.
+  (`f32::partial_cmp`) with NaN test `isNan`; the distance function `dist` is arbitrary (it is
+  `l2_distance`, see C38).  Hypothesis `IeeeCmp pcmp isNan` lists facts about `partial_cmp` that
+  hold for IEEE-754 floats unconditionally (incomparable exactly when a NaN is involved, a total
+  order otherwise).  The model is the REPAIRED comparator of /verif/fixes/C13.diff (NaN sorts
+  last); for it the property holds for EVERY input, NaN included.  For the comparator before the
+  repair (`unwrap_or(Equal)`) the property is false as soon as a distance is NaN:
+  `C13_unrepaired_counterexample`.
 -/
 import MvModel.Vec
 namespace Mv.Vec
 
 variable {F D : Type}
 
-/-- `x ≤ y` as the comparator sees it: `partial_cmp(x, y).unwrap_or(Equal) != Greater` -/
-def leD (pcmp : D → D → Option Ordering) (x y : D) : Bool := (pcmp x y).getD .eq != .gt
+/-- the comparator's view of two distances (repaired code) -/
+def cmpD (pcmp : D → D → Option Ordering) (isNan : D → Bool) (x y : D) : Ordering :=
+  (pcmp x y).getD (compare (isNan x) (isNan y))
 
-/-- `x` strictly closer than `y`: `partial_cmp(x, y) == Some(Less)` -/
+/-- `x ≤ y` as the comparator sees it: not Greater (NaN is the largest value) -/
+def leD (pcmp : D → D → Option Ordering) (isNan : D → Bool) (x y : D) : Bool :=
+  cmpD pcmp isNan x y != .gt
+
+/-- `x` strictly closer than `y`: `partial_cmp(x, y) == Some(Less)` (never true of a NaN) -/
 def ltD (pcmp : D → D → Option Ordering) (x y : D) : Prop := pcmp x y = some .lt
 
 instance (pcmp : D → D → Option Ordering) (x y : D) : Decidable (ltD pcmp x y) :=
   inferInstanceAs (Decidable (pcmp x y = some .lt))
 
-/-- the comparator is a total preorder and `partial_cmp` is antisymmetric (no NaN involved) -/
-structure NoNaN (pcmp : D → D → Option Ordering) : Prop where
-  trans : ∀ x y z, leD pcmp x y = true → leD pcmp y z = true → leD pcmp x z = true
-  total : ∀ x y, (leD pcmp x y || leD pcmp y x) = true
-  antisym : ∀ x y, pcmp x y = some .lt → pcmp y x = some .gt
+/-- facts about `partial_cmp` / `is_nan` valid for IEEE-754 floats (assumed of f32, not proved) -/
+structure IeeeCmp (pcmp : D → D → Option Ordering) (isNan : D → Bool) : Prop where
+  none_iff : ∀ x y, pcmp x y = none ↔ (isNan x = true ∨ isNan y = true)
+  trans : ∀ x y z, pcmp x y ≠ none → pcmp y z ≠ none →
+    pcmp x y ≠ some .gt → pcmp y z ≠ some .gt → pcmp x z ≠ some .gt
+  lt_gt : ∀ x y, pcmp x y = some .lt → pcmp y x = some .gt
+  gt_lt : ∀ x y, pcmp x y = some .gt → pcmp y x = some .lt
 
-theorem leHits_eq (pcmp : D → D → Option Ordering) (a b : Hit D) :
-    leHits pcmp a b = leD pcmp a.distance b.distance := rfl
+theorem leHits_eq (pcmp : D → D → Option Ordering) (isNan : D → Bool) (a b : Hit D) :
+    leHits pcmp isNan a b = leD pcmp isNan a.distance b.distance := rfl
 
-theorem leHits_trans {pcmp : D → D → Option Ordering} (h : NoNaN pcmp) (a b c : Hit D) :
-    leHits pcmp a b = true → leHits pcmp b c = true → leHits pcmp a c = true := by
-  simp only [leHits_eq]; exact h.trans _ _ _
+section order
+variable {pcmp : D → D → Option Ordering} {isNan : D → Bool} (h : IeeeCmp pcmp isNan)
+include h
 
-theorem leHits_total {pcmp : D → D → Option Ordering} (h : NoNaN pcmp) (a b : Hit D) :
-    (leHits pcmp a b || leHits pcmp b a) = true := by
-  simp only [leHits_eq]; exact h.total _ _
+theorem cmpD_of_notNan (x y : D) (hx : isNan x = false) (hy : isNan y = false) :
+    ∃ o, pcmp x y = some o ∧ cmpD pcmp isNan x y = o := by
+  cases hp : pcmp x y with
+  | none =>
+    have := (h.none_iff x y).mp hp
+    simp [hx, hy] at this
+  | some o => exact ⟨o, rfl, by simp [cmpD, hp]⟩
+
+theorem leD_nan_right (x y : D) (hy : isNan y = true) : leD pcmp isNan x y = true := by
+  have hp : pcmp x y = none := (h.none_iff x y).mpr (Or.inr hy)
+  cases hx : isNan x <;> simp [leD, cmpD, hp, hx, hy] <;> decide
+
+theorem leD_nan_left (x y : D) (hx : isNan x = true) (hle : leD pcmp isNan x y = true) :
+    isNan y = true := by
+  have hp : pcmp x y = none := (h.none_iff x y).mpr (Or.inl hx)
+  cases hy : isNan y
+  · simp [leD, cmpD, hp, hx, hy] at hle; revert hle; decide
+  · rfl
+
+theorem leD_trans (x y z : D) (h1 : leD pcmp isNan x y = true) (h2 : leD pcmp isNan y z = true) :
+    leD pcmp isNan x z = true := by
+  cases hz : isNan z
+  · -- z is a number, hence so are y and x
+    have hy : isNan y = false := by
+      cases hy : isNan y
+      · rfl
+      · have := leD_nan_left h y z hy h2; simp [hz] at this
+    have hx : isNan x = false := by
+      cases hx : isNan x
+      · rfl
+      · have := leD_nan_left h x y hx h1; simp [hy] at this
+    obtain ⟨o1, p1, c1⟩ := cmpD_of_notNan h x y hx hy
+    obtain ⟨o2, p2, c2⟩ := cmpD_of_notNan h y z hy hz
+    obtain ⟨o3, p3, c3⟩ := cmpD_of_notNan h x z hx hz
+    simp only [leD, c1, c2, c3, bne_iff_ne, ne_eq] at *
+    have := h.trans x y z (by simp [p1]) (by simp [p2]) (by simp [p1, h1]) (by simp [p2, h2])
+    simpa [p3] using this
+  · exact leD_nan_right h x z hz
+
+theorem leD_total (x y : D) : (leD pcmp isNan x y || leD pcmp isNan y x) = true := by
+  cases hy : isNan y
+  · cases hx : isNan x
+    · obtain ⟨o1, p1, c1⟩ := cmpD_of_notNan h x y hx hy
+      obtain ⟨o2, p2, c2⟩ := cmpD_of_notNan h y x hy hx
+      cases o1 with
+      | gt =>
+        have := h.gt_lt x y p1
+        rw [p2] at this
+        simp only [leD, c1, c2, Bool.or_eq_true, bne_iff_ne, ne_eq]
+        right; cases this; decide
+      | lt => simp [leD, c1]
+      | eq => simp [leD, c1]
+    · simp [leD_nan_right h y x hx]
+  · simp [leD_nan_right h x y hy]
+
+theorem leHits_trans (a b c : Hit D) :
+    leHits pcmp isNan a b = true → leHits pcmp isNan b c = true → leHits pcmp isNan a c = true := by
+  simp only [leHits_eq]; exact leD_trans h _ _ _
+
+theorem leHits_total (a b : Hit D) :
+    (leHits pcmp isNan a b || leHits pcmp isNan b a) = true := by
+  simp only [leHits_eq]; exact leD_total h _ _
+
+/-- a strictly closer value is never ≥ in the comparator's order -/
+theorem not_le_of_lt (x y : D) (hlt : ltD pcmp x y) : leD pcmp isNan y x = false := by
+  have hgt := h.lt_gt x y hlt
+  simp [leD, cmpD, hgt]
+
+end order
 
 /-- **C13_len**: a non-empty query returns exactly `min k m` hits (m = documents in the index). -/
-theorem C13_len (dist : List F → List F → D) (pcmp : D → D → Option Ordering)
+theorem C13_len (dist : List F → List F → D) (pcmp : D → D → Option Ordering) (isNan : D → Bool)
     (docs : List (Doc F)) (q : List F) (k : Nat) (hq : q ≠ []) :
-    (search dist pcmp docs q k).length = min k docs.length := by
+    (search dist pcmp isNan docs q k).length = min k docs.length := by
   have : q.isEmpty = false := by cases q <;> simp_all
   simp [search, this, List.length_take, List.length_mergeSort, score]
 
 /-- every hit is a document of the index with its own distance (nothing invented) -/
 theorem C13_hits_are_docs (dist : List F → List F → D) (pcmp : D → D → Option Ordering)
-    (docs : List (Doc F)) (q : List F) (k : Nat) (h : Hit D)
-    (hh : h ∈ search dist pcmp docs q k) :
+    (isNan : D → Bool) (docs : List (Doc F)) (q : List F) (k : Nat) (h : Hit D)
+    (hh : h ∈ search dist pcmp isNan docs q k) :
     ∃ d ∈ docs, h.frameId = d.frameId ∧ h.distance = dist q d.embedding := by
   unfold search at hh
   split at hh
@@ -60,163 +136,213 @@ theorem C13_hits_are_docs (dist : List F → List F → D) (pcmp : D → D → O
     obtain ⟨d, hd, rfl⟩ := h1
     exact ⟨d, hd, rfl, rfl⟩
 
-/-- **C13_sorted**: hits come in non-decreasing distance (every earlier hit ≤ every later one). -/
-theorem C13_sorted (dist : List F → List F → D) (pcmp : D → D → Option Ordering)
-    (hp : NoNaN pcmp) (docs : List (Doc F)) (q : List F) (k : Nat) :
-    (search dist pcmp docs q k).Pairwise (fun a b => leD pcmp a.distance b.distance = true) := by
+/-- **C13_sorted**: hits come in non-decreasing distance (every earlier hit ≤ every later one,
+    NaN distances last) — for every input. -/
+theorem C13_sorted (dist : List F → List F → D) (pcmp : D → D → Option Ordering) (isNan : D → Bool)
+    (hp : IeeeCmp pcmp isNan) (docs : List (Doc F)) (q : List F) (k : Nat) :
+    (search dist pcmp isNan docs q k).Pairwise
+      (fun a b => leD pcmp isNan a.distance b.distance = true) := by
   unfold search
   split
   · exact List.Pairwise.nil
   · exact List.Pairwise.sublist (List.take_sublist _ _)
       (List.pairwise_mergeSort (leHits_trans hp) (leHits_total hp) _)
 
+/-- in particular no hit is strictly farther than a later hit -/
+theorem C13_sorted_lt (dist : List F → List F → D) (pcmp : D → D → Option Ordering)
+    (isNan : D → Bool) (hp : IeeeCmp pcmp isNan) (docs : List (Doc F)) (q : List F) (k : Nat) :
+    (search dist pcmp isNan docs q k).Pairwise
+      (fun a b => ¬ ltD pcmp b.distance a.distance) := by
+  refine List.Pairwise.imp ?_ (C13_sorted dist pcmp isNan hp docs q k)
+  intro a b hle hlt
+  rw [not_le_of_lt hp _ _ hlt] at hle
+  cases hle
+
 /-- **C13_topk**: the hits together with the omitted documents are a permutation of all scored
     documents, and no omitted document is strictly closer than ANY returned hit (in particular
-    than the last one). -/
-theorem C13_topk (dist : List F → List F → D) (pcmp : D → D → Option Ordering)
-    (hp : NoNaN pcmp) (docs : List (Doc F)) (q : List F) (k : Nat) (hq : q ≠ []) :
+    than the last one) — for every input. -/
+theorem C13_topk (dist : List F → List F → D) (pcmp : D → D → Option Ordering) (isNan : D → Bool)
+    (hp : IeeeCmp pcmp isNan) (docs : List (Doc F)) (q : List F) (k : Nat) (hq : q ≠ []) :
     ∃ omitted : List (Hit D),
-      (search dist pcmp docs q k ++ omitted).Perm (score dist docs q) ∧
-      ∀ h ∈ search dist pcmp docs q k, ∀ r ∈ omitted, ¬ ltD pcmp r.distance h.distance := by
+      (search dist pcmp isNan docs q k ++ omitted).Perm (score dist docs q) ∧
+      ∀ h ∈ search dist pcmp isNan docs q k, ∀ r ∈ omitted,
+        leD pcmp isNan h.distance r.distance = true ∧ ¬ ltD pcmp r.distance h.distance := by
   have hq' : q.isEmpty = false := by cases q <;> simp_all
-  refine ⟨((score dist docs q).mergeSort (leHits pcmp)).drop k, ?_, ?_⟩
+  refine ⟨((score dist docs q).mergeSort (leHits pcmp isNan)).drop k, ?_, ?_⟩
   · simp only [search, hq', Bool.false_eq_true, if_false, List.take_append_drop]
     exact List.mergeSort_perm _ _
-  · intro h hh r hr hlt
+  · intro h hh r hr
     simp only [search, hq', Bool.false_eq_true, if_false] at hh
     have hs := List.pairwise_mergeSort (leHits_trans hp) (leHits_total hp) (score dist docs q)
-    rw [← List.take_append_drop k ((score dist docs q).mergeSort (leHits pcmp)),
+    rw [← List.take_append_drop k ((score dist docs q).mergeSort (leHits pcmp isNan)),
       List.pairwise_append] at hs
-    have hle := hs.2.2 h hh r hr
-    have hgt := hp.antisym _ _ hlt
-    simp [leHits, cmpHits, hgt] at hle
+    have hle : leD pcmp isNan h.distance r.distance = true := hs.2.2 h hh r hr
+    refine ⟨hle, fun hlt => ?_⟩
+    rw [not_le_of_lt hp _ _ hlt] at hle
+    cases hle
 
 /-- the last hit in particular -/
 theorem C13_topk_last (dist : List F → List F → D) (pcmp : D → D → Option Ordering)
-    (hp : NoNaN pcmp) (docs : List (Doc F)) (q : List F) (k : Nat) (hq : q ≠ [])
-    (last : Hit D) (hl : (search dist pcmp docs q k).getLast? = some last) :
+    (isNan : D → Bool) (hp : IeeeCmp pcmp isNan) (docs : List (Doc F)) (q : List F) (k : Nat)
+    (hq : q ≠ []) (last : Hit D) (hl : (search dist pcmp isNan docs q k).getLast? = some last) :
     ∃ omitted : List (Hit D),
-      (search dist pcmp docs q k ++ omitted).Perm (score dist docs q) ∧
+      (search dist pcmp isNan docs q k ++ omitted).Perm (score dist docs q) ∧
       ∀ r ∈ omitted, ¬ ltD pcmp r.distance last.distance := by
-  obtain ⟨om, hperm, hno⟩ := C13_topk dist pcmp hp docs q k hq
-  exact ⟨om, hperm, fun r hr => hno last (List.mem_of_getLast? hl) r hr⟩
+  obtain ⟨om, hperm, hno⟩ := C13_topk dist pcmp isNan hp docs q k hq
+  exact ⟨om, hperm, fun r hr => (hno last (List.mem_of_getLast? hl) r hr).2⟩
+
+/-- a document whose distance is a number is never displaced by a NaN one -/
+theorem C13_nan_last (dist : List F → List F → D) (pcmp : D → D → Option Ordering)
+    (isNan : D → Bool) (hp : IeeeCmp pcmp isNan) (docs : List (Doc F)) (q : List F) (k : Nat)
+    (hq : q ≠ []) :
+    ∃ omitted : List (Hit D),
+      (search dist pcmp isNan docs q k ++ omitted).Perm (score dist docs q) ∧
+      ∀ h ∈ search dist pcmp isNan docs q k, ∀ r ∈ omitted,
+        isNan h.distance = true → isNan r.distance = true := by
+  obtain ⟨om, hperm, hno⟩ := C13_topk dist pcmp isNan hp docs q k hq
+  exact ⟨om, hperm, fun h hh r hr hn => leD_nan_left hp _ _ hn (hno h hh r hr).1⟩
 
 /-- **C13_stable**: ties keep index order — if `a` precedes `b` in the index and `b` is not
     strictly closer, `a` precedes `b` in the sorted list (so the result is deterministic). -/
-theorem C13_stable (dist : List F → List F → D) (pcmp : D → D → Option Ordering)
-    (hp : NoNaN pcmp) (docs : List (Doc F)) (q : List F) (a b : Hit D)
-    (hab : leD pcmp a.distance b.distance = true) (hsub : [a, b].Sublist (score dist docs q)) :
-    [a, b].Sublist ((score dist docs q).mergeSort (leHits pcmp)) :=
+theorem C13_stable (dist : List F → List F → D) (pcmp : D → D → Option Ordering) (isNan : D → Bool)
+    (hp : IeeeCmp pcmp isNan) (docs : List (Doc F)) (q : List F) (a b : Hit D)
+    (hab : leD pcmp isNan a.distance b.distance = true)
+    (hsub : [a, b].Sublist (score dist docs q)) :
+    [a, b].Sublist ((score dist docs q).mergeSort (leHits pcmp isNan)) :=
   List.pair_sublist_mergeSort (leHits_trans hp) (leHits_total hp) hab hsub
 
 /-- **C13_dim**: a query whose dimension differs from the (non-zero) index dimension is rejected
     with `VecDimensionMismatch { expected, actual }`, whatever the index contains. -/
-theorem C13_dim (dist : List F → List F → D) (pcmp : D → D → Option Ordering)
+theorem C13_dim (dist : List F → List F → D) (pcmp : D → D → Option Ordering) (isNan : D → Bool)
     (st : VecState F) (q : List F) (k dim : Nat) (hen : st.vecEnabled = true)
     (hdim : st.effectiveDim = some dim) (hpos : 0 < dim) (hne : q.length ≠ dim) :
-    searchVec dist pcmp st q k = .error (.dimMismatch dim q.length) := by
+    searchVec dist pcmp isNan st q k = .error (.dimMismatch dim q.length) := by
   simp [searchVec, hen, hdim, hpos, hne]
 
 /-- the fallback when the manifest carries no dimension: the first document's length decides -/
 theorem C13_dim_first_doc (dist : List F → List F → D) (pcmp : D → D → Option Ordering)
-    (st : VecState F) (q : List F) (k : Nat) (doc : Doc F) (rest : List (Doc F))
-    (hen : st.vecEnabled = true) (hdim : st.effectiveDim = none)
+    (isNan : D → Bool) (st : VecState F) (q : List F) (k : Nat) (doc : Doc F)
+    (rest : List (Doc F)) (hen : st.vecEnabled = true) (hdim : st.effectiveDim = none)
     (hidx : st.index = some (doc :: rest)) (hpos : 0 < doc.embedding.length)
     (hne : q.length ≠ doc.embedding.length) :
-    searchVec dist pcmp st q k = .error (.dimMismatch doc.embedding.length q.length) := by
+    searchVec dist pcmp isNan st q k = .error (.dimMismatch doc.embedding.length q.length) := by
   simp [searchVec, hen, hdim, hidx, hpos, hne]
 
 /-- a query of the right dimension reaches `VecIndex::search` -/
-theorem C13_dim_ok (dist : List F → List F → D) (pcmp : D → D → Option Ordering)
+theorem C13_dim_ok (dist : List F → List F → D) (pcmp : D → D → Option Ordering) (isNan : D → Bool)
     (st : VecState F) (q : List F) (k dim : Nat) (docs : List (Doc F))
     (hen : st.vecEnabled = true) (hdim : st.effectiveDim = some dim) (hq : q.length = dim)
     (hidx : st.index = some docs) :
-    searchVec dist pcmp st q k = .ok (search dist pcmp docs q k) := by
+    searchVec dist pcmp isNan st q k = .ok (search dist pcmp isNan docs q k) := by
   simp [searchVec, hen, hdim, hq, hidx]
 
 /-- what the code does when vector search is enabled but no index exists (no embedded frame was
     ever committed): an ERROR, not an empty hit list -/
 theorem C13_no_index (dist : List F → List F → D) (pcmp : D → D → Option Ordering)
-    (st : VecState F) (q : List F) (k : Nat) (hen : st.vecEnabled = true)
+    (isNan : D → Bool) (st : VecState F) (q : List F) (k : Nat) (hen : st.vecEnabled = true)
     (hdim : st.effectiveDim = none) (hidx : st.index = none) :
-    searchVec dist pcmp st q k = .error .vecNotEnabled := by
+    searchVec dist pcmp isNan st q k = .error .vecNotEnabled := by
   simp [searchVec, hen, hdim, hidx]
 
-/-! ### the hypothesis is needed: NaN -/
+/-! ### the code before the repair: false with a NaN distance -/
 
 /-- distances `ℕ ∪ {NaN}` with IEEE-like `partial_cmp` -/
 def nanCmp : Option Nat → Option Nat → Option Ordering
   | some x, some y => some (compare x y)
   | _, _ => none
 
-/-- with a NaN distance the comparator is not transitive … -/
-theorem C13_nan_not_preorder : ¬ NoNaN nanCmp := by
-  intro h
-  have := h.trans (some 2) none (some 1) (by decide) (by decide)
-  revert this; decide
-
 def nanDocs : List (Doc (Option Nat)) := [⟨1, [some 7]⟩, ⟨2, [some 8]⟩, ⟨3, [none]⟩, ⟨4, [some 1]⟩]
 def nanDist : List (Option Nat) → List (Option Nat) → Option Nat := fun _ e => e.head?.join
 
-/-- … and the very same code omits a strictly closer frame: documents at distances 7, 8, NaN, 1,
-    k = 1 → the hit is frame 1 at distance 7 although frame 4 is at distance 1 -/
-theorem C13_nan_breaks_topk :
-    search nanDist nanCmp nanDocs [some 0] 1 = [⟨1, some 7⟩] ∧
-    ltD nanCmp (nanDist [some 0] [some 1]) (some 7) := by
-  constructor
-  · simp +decide [search, score, nanDocs, nanDist, List.mergeSort, List.merge, leHits, cmpHits, nanCmp]
-  · decide
+/-- the full-strength top-k clause for the UNREPAIRED comparator (`unwrap_or(Equal)`) -/
+def C13_unrepaired_full : Prop :=
+  ∀ (docs : List (Doc (Option Nat))) (q : List (Option Nat)) (k : Nat), q ≠ [] →
+    ∀ h ∈ searchOld nanDist nanCmp docs q k, ∀ d ∈ docs,
+      (∀ h' ∈ searchOld nanDist nanCmp docs q k, h'.frameId ≠ d.frameId) →
+      ¬ ltD nanCmp (nanDist q d.embedding) h.distance
 
-/-! ### instance used by the driver: exact squared distances over ℚ -/
+/-- documents at distances 7, 8, NaN, 1 and k = 1: a stable sort with `unwrap_or(Equal)` returns
+    frame 1 (distance 7) although frame 4 is at distance 1 (and Rust's sort_by may even panic on
+    such a comparator).  The repaired comparator returns frame 4 (`C13_repaired_witness`). -/
+theorem C13_unrepaired_counterexample : ¬ C13_unrepaired_full := by
+  intro hfull
+  have hs : searchOld nanDist nanCmp nanDocs [some 0] 1 = [⟨1, some 7⟩] := by
+    simp +decide [searchOld, score, nanDocs, nanDist, List.mergeSort, List.merge, cmpHitsOld, nanCmp]
+  have := hfull nanDocs [some 0] 1 (by simp) ⟨1, some 7⟩ (by rw [hs]; simp) ⟨4, [some 1]⟩
+    (by simp [nanDocs]) (by rw [hs]; simp)
+  exact this (by decide)
 
-theorem leD_ratCmp (x y : Rat) : leD ratCmp x y = true ↔ x ≤ y := by
-  unfold leD ratCmp
+theorem C13_repaired_witness :
+    search nanDist nanCmp Option.isNone nanDocs [some 0] 4
+      = [⟨4, some 1⟩, ⟨1, some 7⟩, ⟨2, some 8⟩, ⟨3, none⟩] := by
+  simp +decide [search, score, nanDocs, nanDist, List.mergeSort, List.merge, leHits, cmpHits, nanCmp]
+
+/-! ### instances: `IeeeCmp` is satisfiable; the driver's exact instance satisfies it -/
+
+theorem nanCmp_ieee : IeeeCmp nanCmp Option.isNone where
+  none_iff := by
+    intro x y; cases x <;> cases y <;> simp [nanCmp]
+  trans := by
+    intro x y z
+    cases x <;> cases y <;> cases z <;> simp [nanCmp, Nat.compare_eq_gt]
+    omega
+  lt_gt := by
+    intro x y; cases x <;> cases y <;> simp [nanCmp, Nat.compare_eq_lt, Nat.compare_eq_gt]
+  gt_lt := by
+    intro x y; cases x <;> cases y <;> simp [nanCmp, Nat.compare_eq_lt, Nat.compare_eq_gt]
+
+theorem ratCmp_ne_gt (x y : Rat) : ratCmp x y ≠ some .gt ↔ x ≤ y := by
+  unfold ratCmp
   by_cases h1 : x < y
   · simp [h1, Rat.le_of_lt h1]
   · by_cases h2 : y < x
     · simp [h1, h2, Rat.not_le.mpr h2]
     · simp [h1, h2, Rat.not_lt.mp h2]
 
-theorem ratCmp_noNaN : NoNaN ratCmp where
-  trans := by
-    intro x y z h1 h2
-    rw [leD_ratCmp] at *
-    exact Rat.le_trans h1 h2
-  total := by
+theorem ratCmp_lt (x y : Rat) : ratCmp x y = some .lt ↔ x < y := by
+  unfold ratCmp
+  by_cases h1 : x < y
+  · simp [h1]
+  · by_cases h2 : y < x <;> simp [h1, h2]
+
+theorem ratCmp_gt (x y : Rat) : ratCmp x y = some .gt ↔ y < x := by
+  unfold ratCmp
+  by_cases h1 : x < y
+  · simp [h1, Rat.not_lt.mpr (Rat.le_of_lt h1)]
+  · by_cases h2 : y < x <;> simp [h1, h2]
+
+theorem ratCmp_ne_none (x y : Rat) : ratCmp x y ≠ none := by
+  unfold ratCmp
+  split
+  · simp
+  · split <;> simp
+
+/-- the driver's distances (ℚ ∪ {NaN}) satisfy the IEEE facts -/
+theorem optRatCmp_ieee : IeeeCmp optRatCmp optIsNan where
+  none_iff := by
     intro x y
-    rw [Bool.or_eq_true, leD_ratCmp, leD_ratCmp]
-    exact Rat.le_total
-  antisym := by
-    intro x y h
-    unfold ratCmp at *
-    by_cases h1 : x < y
-    · have h2 : ¬ y < x := Rat.not_lt.mpr (Rat.le_of_lt h1)
-      simp [h1, h2]
-    · by_cases h2 : y < x <;> simp [h1, h2] at h
-
-/-- non-vacuity, and a worked instance: integer distances, a tie kept in index order -/
-def natCmp (x y : Nat) : Option Ordering := some (compare x y)
-
-theorem natCmp_noNaN : NoNaN natCmp where
+    cases x <;> cases y <;> simp [optRatCmp, optIsNan, ratCmp_ne_none]
   trans := by
-    intro x y z h1 h2
-    simp only [leD, natCmp, Option.getD_some, bne_iff_ne, ne_eq, Nat.compare_eq_gt] at *
-    omega
-  total := by
+    intro x y z
+    cases x <;> cases y <;> cases z <;> simp only [optRatCmp, ne_eq, not_true_eq_false,
+      false_implies, implies_true, not_false_eq_true]
+    intro _ _ h1 h2
+    exact (ratCmp_ne_gt _ _).mpr (Rat.le_trans ((ratCmp_ne_gt _ _).mp h1) ((ratCmp_ne_gt _ _).mp h2))
+  lt_gt := by
     intro x y
-    simp only [leD, natCmp, Option.getD_some, Bool.or_eq_true, bne_iff_ne, ne_eq,
-      Nat.compare_eq_gt]
-    omega
-  antisym := by
-    intro x y h
-    simp only [natCmp, Option.some.injEq, Nat.compare_eq_lt, Nat.compare_eq_gt] at *
-    exact h
+    cases x <;> cases y <;> simp only [optRatCmp, reduceCtorEq, false_implies]
+    intro h; exact (ratCmp_gt _ _).mpr ((ratCmp_lt _ _).mp h)
+  gt_lt := by
+    intro x y
+    cases x <;> cases y <;> simp only [optRatCmp, reduceCtorEq, false_implies]
+    intro h; exact (ratCmp_lt _ _).mpr ((ratCmp_gt _ _).mp h)
 
+/-- a worked instance: integer distances, a tie kept in index order, a NaN document last -/
 example :
-    search (fun (q e : List Nat) => (List.zipWith (fun x y => (x - y) * (x - y) + (y - x) * (y - x)) q e).sum)
-      natCmp [⟨0, [5, 5]⟩, ⟨1, [1, 0]⟩, ⟨2, [0, 1]⟩, ⟨3, [9, 9]⟩, ⟨4, [0, 0]⟩] [0, 0] 3
-      = [⟨4, 0⟩, ⟨1, 1⟩, ⟨2, 1⟩] := by
-  simp +decide [search, score, List.mergeSort, List.merge, leHits, cmpHits, natCmp]
+    search (fun (_ e : List (Option Nat)) => e.head?.join) nanCmp Option.isNone
+      [⟨0, [some 50]⟩, ⟨1, [some 1]⟩, ⟨2, [none]⟩, ⟨3, [some 1]⟩, ⟨4, [some 0]⟩] [some 0] 4
+      = [⟨4, some 0⟩, ⟨1, some 1⟩, ⟨3, some 1⟩, ⟨0, some 50⟩] := by
+  simp +decide [search, score, List.mergeSort, List.merge, leHits, cmpHits, nanCmp]
 
 /-! ### reopen: the uncompressed index survives encode → decode unchanged -/
 
@@ -297,12 +423,13 @@ theorem C13_codec_roundtrip (docs : List (Doc Nat)) (hn : docs.length < 2 ^ 64)
     hits (ids, distances, order) as searching the in-memory index — for every distance function,
     comparator, query and k.  `ofBits` reads an f32 bit pattern. -/
 theorem C13_reopen (ofBits : Nat → F) (dist : List F → List F → D)
-    (pcmp : D → D → Option Ordering) (docs : List (Doc Nat)) (hn : docs.length < 2 ^ 64)
+    (pcmp : D → D → Option Ordering) (isNan : D → Bool) (docs : List (Doc Nat))
+    (hn : docs.length < 2 ^ 64)
     (h : ∀ d ∈ docs, DocOk d) (q : List F) (k : Nat) :
     let view := fun (ds : List (Doc Nat)) =>
       ds.map fun d => ({ frameId := d.frameId, embedding := d.embedding.map ofBits } : Doc F)
-    (decodeDocs (encodeDocs docs)).map (fun ds => search dist pcmp (view ds) q k)
-      = some (search dist pcmp (view docs) q k) := by
+    (decodeDocs (encodeDocs docs)).map (fun ds => search dist pcmp isNan (view ds) q k)
+      = some (search dist pcmp isNan (view docs) q k) := by
   simp [C13_codec_roundtrip docs hn h]
 
 end Mv.Vec
